@@ -1,4 +1,4 @@
-import ZmqVerif.Props.C12
+import ZmqVerif.Lemmas.SinkStream
 import ZmqVerif.Lemmas.WorldRecv
 namespace Zmq.W
 open Zmq
@@ -38,7 +38,7 @@ theorem wrSendPoll_spec0 (ps : Pipes) (wr : Wr) (enc : Bytes) (st : SendSt)
   simp only [wrSendPoll, outOf, getPipe_setPipe_same]
   rcases hst with rfl | rfl
   · simp only [sendPoll]
-    have hs := C12.pollReady_stream hwmDefault (getPipe ps wr.pipe).w wr.buf
+    have hs := Sink.pollReady_stream hwmDefault (getPipe ps wr.pipe).w wr.buf
     cases hq : pollReady hwmDefault (getPipe ps wr.pipe).w wr.buf with
     | mk p1 rest =>
       obtain ⟨b1, r1⟩ := rest
@@ -49,7 +49,7 @@ theorem wrSendPoll_spec0 (ps : Pipes) (wr : Wr) (enc : Bytes) (st : SendSt)
       | error => simp [SendSt.handed, hs]
       | done =>
         simp only
-        have hf := C12.flushBuf_stream p1 (b1 ++ enc)
+        have hf := Sink.flushBuf_stream p1 (b1 ++ enc)
         cases hq2 : flushBuf p1 (b1 ++ enc) with
         | mk p2 rest2 =>
           obtain ⟨b2, r2⟩ := rest2
@@ -61,7 +61,7 @@ theorem wrSendPoll_spec0 (ps : Pipes) (wr : Wr) (enc : Bytes) (st : SendSt)
           · simp only at hd; subst hd
             exact flushBuf_done_empty _ _ _ _ hq2
   · simp only [sendPoll]
-    have hf := C12.flushBuf_stream (getPipe ps wr.pipe).w wr.buf
+    have hf := Sink.flushBuf_stream (getPipe ps wr.pipe).w wr.buf
     cases hq2 : flushBuf (getPipe ps wr.pipe).w wr.buf with
     | mk p2 rest2 =>
       obtain ⟨b2, r2⟩ := rest2
